@@ -25,7 +25,7 @@ class It:
 
 
 NAME_POOL = ["a", "a", "a_2", "as", "9x", "append", "copy", "x_", "x_2", "_item_dict", "keys",
-             "b", "a_", "None", "__len__", "a_3"]
+             "b", "a_", "None", "__len__", "a_3", "__tag__", "__tag__", "_x", "__"]
 
 
 def make_alphabet(rng, n):
@@ -44,12 +44,14 @@ def gen_op(rng, alpha, step):
     if k == "insert":
         return ["insert", rng.randint(-4, 5), rng.randrange(len(alpha))]
     if k == "extend":
-        return ["extend", [rng.randrange(len(alpha)) for _ in range(rng.randint(0, 3))]]
+        # the argument is a plain list or itself a NamedItemList (names computed in another name space)
+        return ["extend", [rng.randrange(len(alpha)) for _ in range(rng.randint(0, 3))]] + (["nil"] if rng.random() < 0.5 else [])
     if k == "remove":
         return ["remove", rng.randrange(len(alpha))]
     if k == "pop":
         return ["pop", rng.randint(-4, 5)]
-    return [k]
+    # keep: go on with the original and watch the copy (else: go on with the copy and watch the original)
+    return [k, "keep"] if rng.random() < 0.4 else [k]
 
 
 def all_ops(alpha_n):
@@ -60,7 +62,7 @@ def all_ops(alpha_n):
         ops.append(["insert", 0, i])
         ops.append(["insert", -1, i])
     ops += [["pop", -1], ["pop", 0], ["pop", 1], ["clear"], ["copy"], ["ccopy"], ["deepcopy"],
-            ["pickle"], ["extend", [0, 0]], ["extend", [1, 0]]]
+            ["pickle"], ["extend", [0, 0]], ["extend", [1, 0]], ["extend", [1, 0], "nil"], ["copy", "keep"]]
     return ops
 
 
@@ -84,6 +86,8 @@ def case_to_wire(alpha, ops, by_identity=True):
             wops.append([4, o[1]])
         elif k == "clear":
             wops.append([5])
+        elif len(o) > 1 and o[1] == "keep":
+            wops.append([6])  # the original goes on: nothing observable changes (the model's copy keeps names and identities)
         elif k == "copy":
             wops.append([6])
         elif k == "ccopy":
@@ -142,16 +146,19 @@ def run_impl(alpha, ops, reserved):
     nil = NamedItemList()
     obs = []
     bad = None
+    watched = []  # (list which is no longer operated on, its observation when it was left, how it arose)
     for step, o in enumerate(ops):
         k = o[0]
         oc = 0
+        prev = nil
         try:
             if k == "append":
                 nil.append(objs[o[1]])
             elif k == "insert":
                 nil.insert(o[1], objs[o[2]])
             elif k == "extend":
-                nil.extend([objs[i] for i in o[1]])
+                arg = [objs[i] for i in o[1]]
+                nil.extend(NamedItemList(arg) if o[-1] == "nil" else arg)
             elif k == "remove":
                 nil.remove(objs[o[1]])
             elif k == "pop":
@@ -175,11 +182,21 @@ def run_impl(alpha, ops, reserved):
             obs.append([oc, type(e).__name__])
             bad = bad or (step, f"operation {o} raised {type(e).__name__}: {e}")
             break
+        if nil is not prev:
+            if o[-1] == "keep":
+                prev, nil = nil, prev
+            watched.append((prev, observe(prev, 0), f"{k} at step {step}"))
+            watched = watched[-3:]
         obs.append(observe(nil, oc))
         if bad is None:
             r = oracle(nil, reserved)
             if r:
                 bad = (step, r)
+        # copies are independent lists: operating on one never shows in the other
+        for w, frozen, how in watched:
+            if bad is None and (observe(w, 0) != frozen or oracle(w, reserved)):
+                bad = (step, f"the other list of the {how} changed or became inconsistent "
+                             f"({oracle(w, reserved) or 'content differs'}) although only its counterpart was operated on")
     return obs, bad
 
 
